@@ -68,7 +68,16 @@ def _cases(w):
     cases.append(('celleval(f, var, var)', lambda: cel.celleval(g2, a, b), (a, b), g2, ('a', 'b'), 0))
     cases.append(('funceval(f, var, var, var)', lambda: cel.funceval(g3, a, b, a), (a, b), (lambda x, y: g3(x, y, x)), ('a', 'b'), 0))
     cases.append(('funceval(identity, var)', lambda: cel.funceval((lambda x: x), a), (a,), (lambda x: x), ('a',), 0))
-    return dict(a=a, b=b, arr=arr, s=s), cases
+    # a left-most operand with a PERIODIC axis (the last one): the result must carry the periodic flags as well
+    pc, _ = make_cellvar(w, 'vc', 'n' * (w.nd - 1) + 'r')
+    pc.apply_BCs()
+    cases.append(('periodic var + var', (lambda: pc + b), (pc, b), (lambda x, y: x + y), ('c', 'b'), 0))
+    cases.append(('periodic var * scalar', (lambda: pc * s), (pc,), (lambda x: x * _np64(w, s)), ('c',), 0))
+    cases.append(('scalar - periodic var', (lambda: s - pc), (pc,), (lambda x: _np64(w, s) - x), ('c',), 0))
+    cases.append(('-periodic var', (lambda: -pc), (pc,), (lambda x: -x), ('c',), 0))
+    cases.append(('funceval(f, periodic var)', (lambda: cel.funceval(g1, pc)), (pc,), g1, ('c',), 0))
+    cases.append(('periodic var.copy()', (lambda: pc.copy()), (pc,), (lambda x: x), ('c',), 0))
+    return dict(a=a, b=b, c=pc, arr=arr, s=s), cases
 
 
 class CellAlgebra(Ob):
@@ -101,6 +110,8 @@ class CellAlgebra(Ob):
             if part == 'heap':
                 res.append(('operands_untouched[%s]' % label, flag(w, not obs['written'] and not obs['rebound'])))
                 res.append(('result_shares_nothing[%s]' % label, flag(w, obs['is_new'] and not obs['aliased'] and not obs['bc_shared'])))
+                from .state import current_pattern
+                res.append(('periodic_flags_copied_from_leftmost[%s]' % label, flag(w, current_pattern(w, r) == current_pattern(w, leftop))))
             elif part == 'values':
                 args = []
                 for nm in names:
